@@ -447,3 +447,747 @@ Proof.
   destruct (decode_fuel_mono f (f + S (remaining s)) s ltac:(lia)) as [E|E]; [congruence|].
   rewrite <- H, E. symmetry. apply decode_fuel_indep. lia.
 Qed.
+
+(** * common.I128 *)
+Lemma two128_val : two128 = 340282366920938463463374607431768211456.
+Proof. reflexivity. Qed.
+Lemma maxI128_val : maxI128 = 170141183460469231731687303715884105727%Z.
+Proof. reflexivity. Qed.
+Lemma minI128_val : minI128 = (-170141183460469231731687303715884105728)%Z.
+Proof. reflexivity. Qed.
+Lemma two128_pow : 256 ^ N.of_nat I128_SIZE = two128.
+Proof. reflexivity. Qed.
+
+Lemma le_encode_mod w v : le_encode w (v mod 256 ^ N.of_nat w) = le_encode w v.
+Proof.
+  rewrite <- (le_decode_encode w v).
+  pose proof (le_encode_decode (le_encode w v) (le_encode_wf w v)) as H.
+  rewrite le_encode_length in H. exact H.
+Qed.
+
+Lemma le_encode_app a b v : le_encode (a + b) v = le_encode a v ++ le_encode b (v / 256 ^ N.of_nat a).
+Proof.
+  revert v; induction a as [|a IH]; intro v.
+  - cbn [Nat.add le_encode app N.of_nat]. rewrite N.pow_0_r, N.div_1_r. reflexivity.
+  - cbn [Nat.add le_encode app]. rewrite IH, pow256_succ, N.div_div by (try discriminate; apply N.pow_nonzero; discriminate).
+    reflexivity.
+Qed.
+
+Lemma i128_to_from z x :
+  i128_from_big z = Some x -> i128_to_big x = z /\ length x = I128_SIZE /\ wf_bytes x = true.
+Proof.
+  unfold i128_from_big.
+  destruct ((maxI128 <? z)%Z || (z <? minI128)%Z) eqn:E; [discriminate|].
+  remember (le_encode I128_SIZE (Z.to_N (if (z <? 0)%Z then (z + Z.of_N two128)%Z else z))) as e eqn:He.
+  intro H; injection H as H; subst x e.
+  split; [|split; [apply le_encode_length|apply le_encode_wf]].
+  unfold i128_to_big. rewrite maxI128_val, minI128_val in *.
+  rewrite le_decode_encode_small by (rewrite two128_pow, two128_val; destruct (z <? 0)%Z eqn:E0; rewrite ?two128_val; lia).
+  rewrite two128_val.
+  destruct (z <? 0)%Z eqn:E0.
+  - replace (170141183460469231731687303715884105727 <? Z.of_N (Z.to_N (z + Z.of_N 340282366920938463463374607431768211456)))%Z with true by lia. lia.
+  - replace (170141183460469231731687303715884105727 <? Z.of_N (Z.to_N z))%Z with false by lia. lia.
+Qed.
+
+Lemma i128_to_big_range x :
+  wf_bytes x = true -> length x = I128_SIZE -> in_range minI128 maxI128 (i128_to_big x) = true.
+Proof.
+  intros Hw Hl. pose proof (le_decode_bound x Hw) as Hb. rewrite Hl, two128_pow, two128_val in Hb.
+  unfold in_range, i128_to_big. rewrite maxI128_val, minI128_val, two128_val.
+  destruct (170141183460469231731687303715884105727 <? Z.of_N (le_decode x))%Z eqn:E; lia.
+Qed.
+
+Lemma i128_from_to x :
+  wf_bytes x = true -> length x = I128_SIZE -> i128_from_big (i128_to_big x) = Some x.
+Proof.
+  intros Hw Hl. pose proof (le_decode_bound x Hw) as Hb. rewrite Hl, two128_pow, two128_val in Hb.
+  pose proof (le_encode_decode x Hw) as Hed. rewrite Hl in Hed.
+  unfold i128_from_big, i128_to_big. rewrite maxI128_val, minI128_val, two128_val.
+  set (u := le_decode x) in *.
+  destruct (170141183460469231731687303715884105727 <? Z.of_N u)%Z eqn:E.
+  - replace ((170141183460469231731687303715884105727 <? Z.of_N u - Z.of_N 340282366920938463463374607431768211456)%Z
+             || (Z.of_N u - Z.of_N 340282366920938463463374607431768211456 <? -170141183460469231731687303715884105728)%Z) with false by lia.
+    replace (Z.of_N u - Z.of_N 340282366920938463463374607431768211456 <? 0)%Z with true by lia.
+    replace (Z.to_N (Z.of_N u - Z.of_N 340282366920938463463374607431768211456 + Z.of_N 340282366920938463463374607431768211456)) with u by lia.
+    rewrite Hed; reflexivity.
+  - replace ((170141183460469231731687303715884105727 <? Z.of_N u)%Z
+             || (Z.of_N u <? -170141183460469231731687303715884105728)%Z) with false by lia.
+    replace (Z.of_N u <? 0)%Z with false by lia.
+    rewrite N2Z.id, Hed; reflexivity.
+Qed.
+
+(** I128FromInt64 agrees with I128FromBigInt on the int64 range. *)
+Lemma i128_from_int64_eq z : int64_ok z = true -> i128_from_big z = Some (i128_from_int64 z).
+Proof.
+  unfold int64_ok, in_range. intro Hr.
+  unfold i128_from_big, i128_from_int64, of_signed. rewrite maxI128_val, minI128_val, two128_val.
+  replace ((170141183460469231731687303715884105727 <? z)%Z || (z <? -170141183460469231731687303715884105728)%Z) with false by lia.
+  f_equal.
+  change I128_SIZE with (UINT64_SIZE + 8)%nat. rewrite le_encode_app.
+  change (I128_SIZE - UINT64_SIZE)%nat with 8%nat.
+  change (256 ^ N.of_nat UINT64_SIZE) with 18446744073709551616.
+  change (Z.of_N 18446744073709551616) with 18446744073709551616%Z.
+  destruct (z <? 0)%Z eqn:E0.
+  - f_equal.
+    + rewrite <- (le_encode_mod UINT64_SIZE (Z.to_N (z + _))).
+      f_equal. change (256 ^ N.of_nat UINT64_SIZE) with 18446744073709551616. lia.
+    + replace (Z.to_N (z + Z.of_N 340282366920938463463374607431768211456) / 18446744073709551616) with 18446744073709551615 by lia.
+      reflexivity.
+  - f_equal.
+    + f_equal. lia.
+    + replace (Z.to_N z / 18446744073709551616) with 0 by lia. reflexivity.
+Qed.
+
+Lemma int32_int64_ok z : int32_ok z = true -> int64_ok z = true.
+Proof. unfold int32_ok, int64_ok, in_range; lia. Qed.
+Lemma uint32_int64_ok n : (n <? two32) = true -> int64_ok (Z.of_N n) = true.
+Proof. unfold int64_ok, in_range, two32; lia. Qed.
+
+(** * Induction principles for the nested value types *)
+Section GInd.
+  Variable P : gvalue -> Prop.
+  Hypotheses (Hb : forall b, P (GBytes b)) (Hs : forall b, P (GString b)) (Ha : forall a, P (GAddress a))
+    (Hbo : forall b, P (GBool b)) (Hh : forall h, P (GH256 h)) (Hbig : forall z, P (GBig z))
+    (Hi : forall z, P (GInt z)) (Hi64 : forall z, P (GInt64 z)) (Hi32 : forall z, P (GInt32 z))
+    (Hu32 : forall n, P (GUint32 n)) (Hl : forall l, Forall P l -> P (GList l)) (Ho : P GOther).
+  Fixpoint gvalue_ind' (g : gvalue) : P g :=
+    match g with
+    | GBytes b => Hb b | GString b => Hs b | GAddress a => Ha a | GBool b => Hbo b | GH256 h => Hh h
+    | GBig z => Hbig z | GInt z => Hi z | GInt64 z => Hi64 z | GInt32 z => Hi32 z | GUint32 n => Hu32 n
+    | GList l => Hl l ((fix go (l : list gvalue) : Forall P l :=
+                          match l with [] => Forall_nil P | x :: r => Forall_cons x (gvalue_ind' x) (go r) end) l)
+    | GOther => Ho
+    end.
+End GInd.
+
+Section VInd.
+  Variable P : value -> Prop.
+  Hypotheses (Hb : forall b, P (XBytes b)) (Hs : forall b, P (XString b)) (Ha : forall a, P (XAddress a))
+    (Hbo : forall b, P (XBool b)) (Hi : forall z, P (XInt z)) (Hh : forall h, P (XH256 h))
+    (Hl : forall l, Forall P l -> P (XList l)).
+  Fixpoint value_ind' (v : value) : P v :=
+    match v with
+    | XBytes b => Hb b | XString b => Hs b | XAddress a => Ha a | XBool b => Hbo b | XInt z => Hi z | XH256 h => Hh h
+    | XList l => Hl l ((fix go (l : list value) : Forall P l :=
+                          match l with [] => Forall_nil P | x :: r => Forall_cons x (value_ind' x) (go r) end) l)
+    end.
+End VInd.
+
+(** * Tags (values regenerated from the source) *)
+Lemma decode_body_bytes rl s s1 : next_byte s = (ByteArrayType, false, s1) -> decode_body rl s = dec_sized XBytes s1.
+Proof. intro H; unfold decode_body; rewrite H; reflexivity. Qed.
+Lemma decode_body_string rl s s1 : next_byte s = (StringType, false, s1) -> decode_body rl s = dec_sized XString s1.
+Proof. intro H; unfold decode_body; rewrite H; reflexivity. Qed.
+Lemma decode_body_address rl s s1 : next_byte s = (AddressType, false, s1) -> decode_body rl s = dec_fixed next_address XAddress s1.
+Proof. intro H; unfold decode_body; rewrite H; reflexivity. Qed.
+Lemma decode_body_bool rl s s1 : next_byte s = (BooleanType, false, s1) -> decode_body rl s = dec_bool s1.
+Proof. intro H; unfold decode_body; rewrite H; reflexivity. Qed.
+Lemma decode_body_int rl s s1 : next_byte s = (IntType, false, s1) ->
+  decode_body rl s = dec_fixed next_i128 (fun x => XInt (i128_to_big x)) s1.
+Proof. intro H; unfold decode_body; rewrite H; reflexivity. Qed.
+Lemma decode_body_h256 rl s s1 : next_byte s = (H256Type, false, s1) -> decode_body rl s = dec_fixed next_hash XH256 s1.
+Proof. intro H; unfold decode_body; rewrite H; reflexivity. Qed.
+Lemma decode_body_list rl s s1 : next_byte s = (ListType, false, s1) -> decode_body rl s = dec_list rl s1.
+Proof. intro H; unfold decode_body; rewrite H; reflexivity. Qed.
+
+Lemma tags_are_bytes :
+  write_uint8 ByteArrayType = [ByteArrayType] /\ write_uint8 StringType = [StringType] /\
+  write_uint8 AddressType = [AddressType] /\ write_uint8 BooleanType = [BooleanType] /\
+  write_uint8 IntType = [IntType] /\ write_uint8 H256Type = [H256Type] /\ write_uint8 ListType = [ListType].
+Proof. repeat split. Qed.
+
+Lemma tags_distinct :
+  NoDup [ByteArrayType; StringType; AddressType; BooleanType; IntType; H256Type; ListType].
+Proof. repeat constructor; cbn; intuition discriminate. Qed.
+
+(** * Per-case specifications (reading what the encoder wrote) *)
+Lemma moved_0 s : moved s 0 = s.
+Proof. destruct s as [b o]; unfold moved; cbn [buf off]; f_equal; lia. Qed.
+
+Lemma len32_small {A} (l : list A) : N.of_nat (length l) < two32 -> len32 l = N.of_nat (length l).
+Proof. intro H; unfold len32; apply N.mod_small; exact H. Qed.
+
+Lemma two32_pow' : 256 ^ N.of_nat UINT32_SIZE = two32.
+Proof. reflexivity. Qed.
+
+Lemma dec_sized_spec mk s1 pre d post :
+  at_pos s1 pre (write_uint32 (N.of_nat (length d)) ++ d ++ post) -> fits s1 -> N.of_nat (length d) < two32 ->
+  dec_sized mk s1 = DOk (mk d) (moved s1 (UINT32_SIZE + length d)).
+Proof.
+  intros Hp Hf Hlt. unfold dec_sized, next_uint32, write_uint32 in *.
+  rewrite (next_uint_spec _ _ _ _ _ Hp Hf) by (rewrite two32_pow'; exact Hlt).
+  apply at_pos_moved in Hp. rewrite le_encode_length in Hp.
+  rewrite (next_bytes_spec _ _ _ _ Hp (fits_moved _ _ Hf)). rewrite moved_moved. reflexivity.
+Qed.
+
+Lemma dec_sized_inv mk s1 v s' pre rest :
+  dec_sized mk s1 = DOk v s' -> at_pos s1 pre rest -> wf_bytes rest = true ->
+  exists d post, rest = write_uint32 (N.of_nat (length d)) ++ d ++ post /\ N.of_nat (length d) < two32 /\
+                 wf_bytes d = true /\ v = mk d /\ s' = moved s1 (UINT32_SIZE + length d).
+Proof.
+  intros H Hp Hw. unfold dec_sized, next_uint32, write_uint32 in *.
+  destruct (next_uint UINT32_SIZE s1) as [[size e] s2] eqn:E1. destruct e; [discriminate|].
+  destruct (next_bytes s2 size) as [[d e] s3] eqn:E2. destruct e; [discriminate|].
+  injection H as Hv Hs. subst v s'.
+  destruct (next_uint_inv _ _ _ _ _ _ Hp Hw E1) as [post1 [Hr [Hlt Hs2]]]. subst rest s2.
+  apply at_pos_moved in Hp. rewrite le_encode_length in Hp.
+  destruct (next_bytes_inv _ _ _ _ _ _ Hp E2) as [post [Hr2 [Hn Hs3]]]. subst post1 size s3.
+  rewrite !wf_bytes_app in Hw. apply andb_prop in Hw; destruct Hw as [_ Hw]. apply andb_prop in Hw; destruct Hw as [Hwd _].
+  exists d, post. rewrite moved_moved. rewrite two32_pow' in Hlt. repeat split; auto.
+Qed.
+
+Lemma dec_fixed_spec w mk s1 pre d post :
+  at_pos s1 pre (d ++ post) -> fits s1 -> length d = w ->
+  dec_fixed (next_fixed w) mk s1 = DOk (mk d) (moved s1 w).
+Proof. intros Hp Hf Hl. unfold dec_fixed. rewrite (next_fixed_spec _ _ _ _ _ Hp Hf Hl). reflexivity. Qed.
+
+Lemma dec_fixed_inv w mk s1 v s' pre rest :
+  dec_fixed (next_fixed w) mk s1 = DOk v s' -> at_pos s1 pre rest -> wf_bytes rest = true ->
+  exists d post, rest = d ++ post /\ length d = w /\ wf_bytes d = true /\ v = mk d /\ s' = moved s1 w.
+Proof.
+  intros H Hp Hw. unfold dec_fixed in H.
+  destruct (next_fixed w s1) as [[d e] s2] eqn:E1. destruct e; [discriminate|]. injection H as Hv Hs. subst v s'.
+  destruct (next_fixed_inv _ _ _ _ _ _ Hp E1) as [post [Hr [Hl Hs2]]]. subst rest s2.
+  rewrite wf_bytes_app in Hw. apply andb_prop in Hw; destruct Hw as [Hwd _].
+  exists d, post. repeat split; auto.
+Qed.
+
+Lemma dec_bool_spec s1 pre (b : bool) post :
+  at_pos s1 pre ((if b then write_uint8 1 else write_uint8 0) ++ post) ->
+  dec_bool s1 = DOk (XBool b) (moved s1 1).
+Proof.
+  intro Hp. unfold dec_bool, next_bool.
+  destruct b; cbn [write_uint8 app] in Hp; rewrite (next_byte_spec _ _ _ _ Hp); reflexivity.
+Qed.
+
+Lemma dec_bool_inv s1 v s' pre rest :
+  dec_bool s1 = DOk v s' -> at_pos s1 pre rest ->
+  exists (b : bool) post, rest = (if b then write_uint8 1 else write_uint8 0) ++ post /\ v = XBool b /\ s' = moved s1 1.
+Proof.
+  intros H Hp. unfold dec_bool, next_bool in H.
+  destruct (next_byte s1) as [[x e] s2] eqn:E1.
+  destruct (N.eqb_spec x 0) as [->|N0].
+  - destruct e; [discriminate|]. injection H as Hv Hs.
+    destruct (next_byte_inv _ _ _ _ _ Hp E1) as [post [Hr Hs2]]. exists false, post. subst; auto.
+  - destruct (N.eqb_spec x 1) as [->|N1].
+    + destruct e; [discriminate|]. injection H as Hv Hs.
+      destruct (next_byte_inv _ _ _ _ _ Hp E1) as [post [Hr Hs2]]. exists true, post. subst; auto.
+    + destruct e; discriminate.
+Qed.
+
+(** * Encoder facts *)
+Lemma g_encode_elem_nonempty g b : g_encode_elem g = EOk b -> (1 <= length b)%nat.
+Proof.
+  destruct g; cbn [g_encode_elem]; try (intro H; injection H as <-; cbn; lia); try discriminate.
+  - unfold enc_bigint. destruct (i128_from_big z); [|discriminate]. intro H; injection H as <-; cbn; lia.
+  - destruct (enc_seq g_encode_elem l); try discriminate. intro H; injection H as <-; cbn; lia.
+Qed.
+
+Lemma enc_seq_length l : forall body, enc_seq g_encode_elem l = EOk body -> (length l <= length body)%nat.
+Proof.
+  induction l as [|x r IH]; intros body; cbn [enc_seq].
+  - intro H; injection H as <-; cbn; lia.
+  - destruct (g_encode_elem x) as [bx| |] eqn:Ex; try discriminate.
+    destruct (enc_seq g_encode_elem r) as [br| |] eqn:Er; try discriminate.
+    intro H; injection H as <-. pose proof (g_encode_elem_nonempty _ _ Ex). pose proof (IH _ eq_refl).
+    rewrite app_length; cbn [length]; lia.
+Qed.
+
+Lemma moved_eq s a b : a = b -> moved s a = moved s b.
+Proof. intros ->; reflexivity. Qed.
+
+Ltac fin_len :=
+  f_equal; apply moved_eq; unfold write_uint32; cbn [write_uint8];
+  repeat rewrite app_length; repeat rewrite le_encode_length; cbn [length]; lia.
+
+(** * Round trip: decoding what the encoder wrote *)
+Definition RT (g : gvalue) : Prop :=
+  wf_g g = true ->
+  exists b, g_encode_elem g = EOk b /\ wf_bytes b = true /\
+    forall s pre post, at_pos s pre (b ++ post) -> fits s ->
+      decode_value s = DOk (norm g) (moved s (length b)).
+
+Lemma decode_value_body s : decode_value s = decode_body (decode_loop (decode_fuel (remaining s)) (remaining s)) s.
+Proof. reflexivity. Qed.
+
+Lemma rt_int z : int64_ok z = true ->
+  wf_bytes (enc_int128 (i128_from_int64 z)) = true /\
+  forall s pre post, at_pos s pre (enc_int128 (i128_from_int64 z) ++ post) -> fits s ->
+    decode_value s = DOk (XInt z) (moved s (length (enc_int128 (i128_from_int64 z)))).
+Proof.
+  intro Hr. pose proof (i128_from_int64_eq z Hr) as He.
+  destruct (i128_to_from _ _ He) as [Hz [Hl Hw]].
+  split; [unfold enc_int128; rewrite wf_bytes_app, Hw; reflexivity|].
+  intros s pre post Hp Hf. unfold enc_int128 in *. cbn [write_uint8 app] in Hp.
+  change (IntType mod 256) with IntType in Hp.
+  rewrite decode_value_body, (decode_body_int _ _ _ (next_byte_spec _ _ _ _ Hp)).
+  apply (at_pos_moved s pre [IntType]) in Hp.
+  unfold next_i128. rewrite (dec_fixed_spec _ _ _ _ _ _ Hp (fits_moved _ _ Hf) Hl).
+  rewrite Hz, moved_moved, app_length, Hl. reflexivity.
+Qed.
+
+Lemma wk_moved s pre d post : at_pos s pre (d ++ post) -> wk s (moved s (length d)).
+Proof.
+  intros [Hb Ho]. unfold wk, moved; cbn [buf off]. split; [reflexivity|].
+  rewrite Hb, Ho, !app_length. lia.
+Qed.
+
+Lemma rt_loop l :
+  Forall RT l -> forallb wf_g l = true ->
+  forall body, enc_seq g_encode_elem l = EOk body ->
+  wf_bytes body = true /\
+  forall dv k s2 pre post, at_pos s2 pre (body ++ post) -> fits s2 -> (length l <= k)%nat ->
+    (forall s3 v s4, wk s2 s3 -> decode_value s3 = DOk v s4 -> dv s3 = DOk v s4) ->
+    decode_loop dv k (N.of_nat (length l)) s2 = DOk (map norm l) (moved s2 (length body)).
+Proof.
+  induction 1 as [|x r Hx Hr IH]; intros Hwf body; cbn [enc_seq].
+  - intro H; injection H as <-. split; [reflexivity|]. intros. cbn. rewrite moved_0. destruct k; reflexivity.
+  - cbn [forallb] in Hwf. apply andb_prop in Hwf; destruct Hwf as [Hwx Hwr].
+    destruct (Hx Hwx) as [bx [Ex [Hwbx Hdx]]]. rewrite Ex.
+    destruct (enc_seq g_encode_elem r) as [br| |] eqn:Er; try discriminate.
+    intro H; injection H as <-.
+    destruct (IH Hwr br eq_refl) as [Hwbr Hdr].
+    split; [rewrite wf_bytes_app, Hwbx, Hwbr; reflexivity|].
+    intros dv k s2 pre post Hp Hf Hk Hdv.
+    destruct k as [|k]; [cbn [length] in Hk; lia|].
+    cbn [decode_loop length map].
+    replace (N.of_nat (S (length r)) =? 0) with false by lia.
+    rewrite <- app_assoc in Hp.
+    rewrite (Hdv s2 _ _ (wk_refl _ ltac:(destruct Hp as [Hb Ho]; unfold oksrc; rewrite Hb, Ho, app_length; lia))
+                 (Hdx s2 pre (br ++ post) Hp Hf)).
+    replace (N.of_nat (S (length r)) - 1) with (N.of_nat (length r)) by lia.
+    pose proof (wk_moved _ _ _ _ Hp) as W.
+    apply at_pos_moved in Hp.
+    rewrite (Hdr dv k _ _ _ Hp (fits_moved _ _ Hf) ltac:(cbn [length] in Hk; lia)
+                 (fun s3 v s4 W3 => Hdv s3 v s4 (wk_trans _ _ _ W W3))).
+    rewrite moved_moved, app_length. reflexivity.
+Qed.
+
+Lemma round_trip_elem : forall g, RT g.
+Proof.
+  induction g as [b|b|a|b|h|z|z|z|z|n|l IHl|] using gvalue_ind'; unfold RT; cbn [wf_g g_encode_elem norm]; intro Hwf.
+  - (* bytes *)
+    apply andb_prop in Hwf; destruct Hwf as [Hw Hlt]. apply N.ltb_lt in Hlt.
+    eexists; split; [reflexivity|]. unfold enc_bytes. rewrite (len32_small _ Hlt).
+    split; [rewrite !wf_bytes_app, Hw; unfold write_uint32; rewrite le_encode_wf; reflexivity|].
+    intros s pre post Hp Hf. cbn [write_uint8 app] in Hp. change (ByteArrayType mod 256) with ByteArrayType in Hp.
+    rewrite decode_value_body, (decode_body_bytes _ _ _ (next_byte_spec _ _ _ _ Hp)).
+    apply (at_pos_moved s pre [ByteArrayType]) in Hp. rewrite <- app_assoc in Hp.
+    rewrite (dec_sized_spec _ _ _ _ _ Hp (fits_moved _ _ Hf) Hlt), moved_moved.
+    fin_len.
+  - (* string *)
+    apply andb_prop in Hwf; destruct Hwf as [Hw Hlt]. apply N.ltb_lt in Hlt.
+    eexists; split; [reflexivity|]. unfold enc_string. rewrite (len32_small _ Hlt).
+    split; [rewrite !wf_bytes_app, Hw; unfold write_uint32; rewrite le_encode_wf; reflexivity|].
+    intros s pre post Hp Hf. cbn [write_uint8 app] in Hp. change (StringType mod 256) with StringType in Hp.
+    rewrite decode_value_body, (decode_body_string _ _ _ (next_byte_spec _ _ _ _ Hp)).
+    apply (at_pos_moved s pre [StringType]) in Hp. rewrite <- app_assoc in Hp.
+    rewrite (dec_sized_spec _ _ _ _ _ Hp (fits_moved _ _ Hf) Hlt), moved_moved.
+    fin_len.
+  - (* address *)
+    apply andb_prop in Hwf; destruct Hwf as [Hw Hl]. apply Nat.eqb_eq in Hl.
+    eexists; split; [reflexivity|]. unfold enc_address.
+    split; [rewrite wf_bytes_app, Hw; reflexivity|].
+    intros s pre post Hp Hf. cbn [write_uint8 app] in Hp. change (AddressType mod 256) with AddressType in Hp.
+    rewrite decode_value_body, (decode_body_address _ _ _ (next_byte_spec _ _ _ _ Hp)).
+    apply (at_pos_moved s pre [AddressType]) in Hp.
+    unfold next_address. rewrite (dec_fixed_spec _ _ _ _ _ _ Hp (fits_moved _ _ Hf) Hl), moved_moved.
+    cbn [write_uint8 app length]. rewrite Hl. reflexivity.
+  - (* bool *)
+    eexists; split; [reflexivity|]. unfold enc_bool.
+    split; [destruct b; reflexivity|].
+    intros s pre post Hp Hf. cbn [write_uint8 app] in Hp. change (BooleanType mod 256) with BooleanType in Hp.
+    rewrite decode_value_body, (decode_body_bool _ _ _ (next_byte_spec _ _ _ _ Hp)).
+    apply (at_pos_moved s pre [BooleanType]) in Hp. cbn [length] in Hp.
+    rewrite (dec_bool_spec _ _ _ _ Hp), moved_moved. destruct b; reflexivity.
+  - (* h256 *)
+    apply andb_prop in Hwf; destruct Hwf as [Hw Hl]. apply Nat.eqb_eq in Hl.
+    eexists; split; [reflexivity|]. unfold enc_h256.
+    split; [rewrite wf_bytes_app, Hw; reflexivity|].
+    intros s pre post Hp Hf. cbn [write_uint8 app] in Hp. change (H256Type mod 256) with H256Type in Hp.
+    rewrite decode_value_body, (decode_body_h256 _ _ _ (next_byte_spec _ _ _ _ Hp)).
+    apply (at_pos_moved s pre [H256Type]) in Hp.
+    unfold next_hash. rewrite (dec_fixed_spec _ _ _ _ _ _ Hp (fits_moved _ _ Hf) Hl), moved_moved.
+    cbn [write_uint8 app length]. rewrite Hl. reflexivity.
+  - (* big *)
+    unfold enc_bigint. destruct (i128_from_big z) as [x|] eqn:E.
+    + destruct (i128_to_from _ _ E) as [Hz [Hl Hw]].
+      eexists; split; [reflexivity|]. unfold enc_int128.
+      split; [rewrite wf_bytes_app, Hw; reflexivity|].
+      intros s pre post Hp Hf. cbn [write_uint8 app] in Hp. change (IntType mod 256) with IntType in Hp.
+      rewrite decode_value_body, (decode_body_int _ _ _ (next_byte_spec _ _ _ _ Hp)).
+      apply (at_pos_moved s pre [IntType]) in Hp.
+      unfold next_i128. rewrite (dec_fixed_spec _ _ _ _ _ _ Hp (fits_moved _ _ Hf) Hl), moved_moved.
+      rewrite Hz. cbn [write_uint8 app length]. rewrite Hl. reflexivity.
+    + exfalso. unfold i128_from_big, in_range in *.
+      destruct ((maxI128 <? z)%Z || (z <? minI128)%Z) eqn:E2; [|discriminate]. lia.
+  - (* int *) destruct (rt_int z Hwf) as [H1 H2]. eexists; split; [reflexivity|]. split; assumption.
+  - (* int64 *) destruct (rt_int z Hwf) as [H1 H2]. eexists; split; [reflexivity|]. split; assumption.
+  - (* int32 *) destruct (rt_int z (int32_int64_ok _ Hwf)) as [H1 H2]. eexists; split; [reflexivity|]. split; assumption.
+  - (* uint32 *) destruct (rt_int _ (uint32_int64_ok _ Hwf)) as [H1 H2]. eexists; split; [reflexivity|]. split; assumption.
+  - (* list *)
+    apply andb_prop in Hwf; destruct Hwf as [Hlt Hwl]. apply N.ltb_lt in Hlt.
+    assert (Hbody : exists body, enc_seq g_encode_elem l = EOk body).
+    { clear Hlt. induction IHl as [|x r Hx Hr IH]; [eexists; reflexivity|].
+      cbn [forallb] in Hwl. apply andb_prop in Hwl; destruct Hwl as [Hwx Hwr].
+      destruct (Hx Hwx) as [bx [Ex _]]. destruct (IH Hwr) as [br Er]. cbn [enc_seq]. rewrite Ex, Er. eexists; reflexivity. }
+    destruct Hbody as [body Eb]. rewrite Eb.
+    destruct (rt_loop l IHl Hwl body Eb) as [Hwb Hloop].
+    eexists; split; [reflexivity|]. rewrite (len32_small _ Hlt).
+    split; [rewrite !wf_bytes_app, Hwb; unfold write_uint32; rewrite le_encode_wf; reflexivity|].
+    intros s pre post Hp Hf. cbn [write_uint8 app] in Hp. change (ListType mod 256) with ListType in Hp.
+    pose proof (at_pos_remaining _ _ _ Hp) as Hrem.
+    rewrite decode_value_body, (decode_body_list _ _ _ (next_byte_spec _ _ _ _ Hp)).
+    apply (at_pos_moved s pre [ListType]) in Hp. rewrite <- app_assoc in Hp. cbn [length] in Hp.
+    unfold dec_list, next_uint32, write_uint32 in *.
+    rewrite (next_uint_spec _ _ _ _ _ Hp (fits_moved _ _ Hf)) by (rewrite two32_pow'; exact Hlt).
+    apply at_pos_moved in Hp. rewrite le_encode_length, moved_moved in Hp.
+    pose proof (enc_seq_length _ _ Eb) as Hlen.
+    rewrite moved_moved.
+    rewrite (Hloop (decode_fuel (remaining s)) (remaining s) _ _ _ Hp (fits_moved _ _ Hf)).
+    + rewrite moved_moved. fin_len.
+    + rewrite Hrem. cbn [length]. rewrite !app_length. lia.
+    + intros s3 v s4 W H. rewrite decode_fuel_indep; [exact H|].
+      pose proof (wk_remaining _ _ W) as Hr3. pose proof (at_pos_remaining _ _ _ Hp) as Hr2.
+      rewrite app_length in Hr2.
+      rewrite Hrem. cbn [length]. rewrite !app_length, le_encode_length. lia.
+  - discriminate.
+Qed.
+
+(** * Canonical form: whatever the decoder accepts is exactly the encoding of the value it returns *)
+Definition can_concl (v : value) (s s' : source) (rest : bytes) : Prop :=
+  exists enc post, rest = enc ++ post /\ g_encode_elem (embed v) = EOk enc /\ wf_g (embed v) = true /\
+                   s' = moved s (length enc).
+
+Definition CANdv (dv : source -> dres value) : Prop :=
+  forall s v s' pre rest, dv s = DOk v s' -> at_pos s pre rest -> wf_bytes rest = true -> can_concl v s s' rest.
+
+Definition canl_concl (l : list value) (n : N) (s s' : source) (rest : bytes) : Prop :=
+  exists body post, rest = body ++ post /\ enc_seq g_encode_elem (map embed l) = EOk body /\
+                    forallb wf_g (map embed l) = true /\ N.of_nat (length l) = n /\ s' = moved s (length body).
+
+Definition CANrl (rl : N -> source -> dres (list value)) : Prop :=
+  forall n s l s' pre rest, rl n s = DOk l s' -> at_pos s pre rest -> wf_bytes rest = true -> canl_concl l n s s' rest.
+
+Lemma can_loop dv k : CANdv dv -> CANrl (decode_loop dv k).
+Proof.
+  intro Hdv. induction k as [|k IH]; intros n s l s' pre rest; cbn [decode_loop].
+  - destruct (N.eqb_spec n 0) as [->|Hn]; [|discriminate].
+    intros H Hp Hw. injection H as <- <-. exists [], rest. rewrite moved_0. repeat split; reflexivity.
+  - destruct (N.eqb_spec n 0) as [->|Hn].
+    + intros H Hp Hw. injection H as <- <-. exists [], rest. rewrite moved_0. repeat split; reflexivity.
+    + destruct (dv s) as [v s1| |] eqn:E; try discriminate.
+      destruct (decode_loop dv k (n - 1) s1) as [l1 s2| |] eqn:E2; try discriminate.
+      intros H Hp Hw. injection H as <- <-.
+      destruct (Hdv _ _ _ _ _ E Hp Hw) as [enc [post1 [Hr [He [Hwv Hs1]]]]]. subst rest s1.
+      rewrite wf_bytes_app in Hw. apply andb_prop in Hw; destruct Hw as [_ Hw1].
+      destruct (IH _ _ _ _ _ _ E2 (at_pos_moved _ _ _ _ Hp) Hw1) as [body [post [Hr2 [Hb [Hwl [Hlen Hs2]]]]]].
+      subst post1 s2. exists (enc ++ body), post. cbn [map enc_seq forallb length].
+      rewrite He, Hb, Hwv, Hwl, moved_moved, app_length, app_assoc. repeat split; try reflexivity. lia.
+Qed.
+
+Lemma at_pos_moved1 s pre x post : at_pos s pre (x :: post) -> at_pos (moved s 1) (pre ++ [x]) post.
+Proof. intro H. exact (at_pos_moved s pre [x] post H). Qed.
+
+Lemma can_body rl : CANrl rl -> CANdv (decode_body rl).
+Proof.
+  intros Hrl s v s' pre rest H Hp Hw. apply decode_body_inv in H.
+  destruct H as [[x [s1 [_ H]]]|[ty [s1 [Hnb H]]]]; [discriminate|].
+  destruct (next_byte_inv _ _ _ _ _ Hp Hnb) as [post0 [Hr Hs1]]. subst rest s1.
+  pose proof (at_pos_moved1 _ _ _ _ Hp) as Hp1.
+  assert (Hw0 : wf_bytes post0 = true) by (rewrite wf_bytes_cons in Hw; apply andb_prop in Hw; tauto).
+  unfold can_concl.
+  destruct H as [[Ht H]|[[Ht H]|[[Ht H]|[[Ht H]|[[Ht H]|[[Ht H]|[[Ht H]|H]]]]]]]; try discriminate; symmetry in H; try subst ty.
+  - destruct (dec_sized_inv _ _ _ _ _ _ H Hp1 Hw0) as [d [post [Hr [Hlt [Hwd [Hv Hs]]]]]]. subst post0 v s'.
+    exists (enc_bytes d), post. cbn [embed g_encode_elem wf_g]. unfold enc_bytes. rewrite (len32_small _ Hlt), Hwd, moved_moved.
+    replace (N.of_nat (length d) <? two32) with true by lia. repeat split; try reflexivity; try (apply moved_eq; unfold write_uint32; cbn [write_uint8]; rewrite !app_length, le_encode_length; cbn [length]; lia).
+  - destruct (dec_sized_inv _ _ _ _ _ _ H Hp1 Hw0) as [d [post [Hr [Hlt [Hwd [Hv Hs]]]]]]. subst post0 v s'.
+    exists (enc_string d), post. cbn [embed g_encode_elem wf_g]. unfold enc_string. rewrite (len32_small _ Hlt), Hwd, moved_moved.
+    replace (N.of_nat (length d) <? two32) with true by lia. repeat split; try reflexivity; try (apply moved_eq; unfold write_uint32; cbn [write_uint8]; rewrite !app_length, le_encode_length; cbn [length]; lia).
+  - unfold next_address in H.
+    destruct (dec_fixed_inv _ _ _ _ _ _ _ H Hp1 Hw0) as [d [post [Hr [Hl [Hwd [Hv Hs]]]]]]. subst post0 v s'.
+    exists (enc_address d), post. cbn [embed g_encode_elem wf_g]. unfold enc_address. rewrite Hwd, Hl, Nat.eqb_refl, moved_moved.
+    repeat split; try reflexivity; try (apply moved_eq; cbn [write_uint8]; rewrite app_length, Hl; reflexivity).
+  - destruct (dec_bool_inv _ _ _ _ _ H Hp1) as [b [post [Hr [Hv Hs]]]]. subst post0 v s'.
+    exists (enc_bool b), post. cbn [embed g_encode_elem wf_g]. unfold enc_bool. rewrite moved_moved.
+    repeat split; try reflexivity. destruct b; reflexivity.
+  - unfold next_i128 in H.
+    destruct (dec_fixed_inv _ _ _ _ _ _ _ H Hp1 Hw0) as [d [post [Hr [Hl [Hwd [Hv Hs]]]]]]. subst post0 v s'.
+    exists (enc_int128 d), post. cbn [embed g_encode_elem wf_g]. unfold enc_bigint.
+    rewrite (i128_from_to _ Hwd Hl), (i128_to_big_range _ Hwd Hl), moved_moved. unfold enc_int128.
+    repeat split; try reflexivity; try (apply moved_eq; cbn [write_uint8]; rewrite app_length, Hl; reflexivity).
+  - unfold next_hash in H.
+    destruct (dec_fixed_inv _ _ _ _ _ _ _ H Hp1 Hw0) as [d [post [Hr [Hl [Hwd [Hv Hs]]]]]]. subst post0 v s'.
+    exists (enc_h256 d), post. cbn [embed g_encode_elem wf_g]. unfold enc_h256. rewrite Hwd, Hl, Nat.eqb_refl, moved_moved.
+    repeat split; try reflexivity; try (apply moved_eq; cbn [write_uint8]; rewrite app_length, Hl; reflexivity).
+  - unfold dec_list, next_uint32 in H.
+    destruct (next_uint UINT32_SIZE (moved s 1)) as [[size e] s2] eqn:E1. destruct e; [discriminate|].
+    destruct (rl size s2) as [l s3| |] eqn:E2; try discriminate. injection H as Hv Hs. subst v s3.
+    destruct (next_uint_inv _ _ _ _ _ _ Hp1 Hw0 E1) as [post1 [Hr [Hlt Hs2]]]. subst post0 s2.
+    rewrite two32_pow' in Hlt.
+    rewrite wf_bytes_app in Hw0. apply andb_prop in Hw0; destruct Hw0 as [_ Hw1].
+    pose proof (at_pos_moved _ _ _ _ Hp1) as Hp2. rewrite le_encode_length in Hp2.
+    destruct (Hrl _ _ _ _ _ _ E2 Hp2 Hw1) as [body [post [Hr2 [Hb [Hwl [Hlen Hs3]]]]]]. subst post1 s'.
+    exists (write_uint8 ListType ++ write_uint32 size ++ body), post.
+    cbn [embed g_encode_elem wf_g]. rewrite Hb, Hwl, map_length.
+    rewrite (len32_small (map embed l)) by (rewrite map_length, Hlen; exact Hlt). rewrite map_length, Hlen.
+    replace (size <? two32) with true by lia. rewrite !moved_moved.
+    repeat split; try reflexivity;
+      try (unfold write_uint32; cbn [write_uint8 app]; rewrite <- app_assoc; reflexivity);
+      try (apply moved_eq; unfold write_uint32; cbn [write_uint8]; rewrite !app_length, le_encode_length; cbn [length]; lia).
+Qed.
+
+Lemma can_fuel f : CANdv (decode_fuel f).
+Proof.
+  induction f as [|f IH]; [intros s v s' pre rest H; discriminate|].
+  intros s v s' pre rest. rewrite decode_fuel_S. apply can_body, can_loop, IH.
+Qed.
+
+Lemma can_value : CANdv decode_value.
+Proof. intros s. apply can_fuel. Qed.
+
+(** * Consequences *)
+Lemma embed_norm v : norm (embed v) = v.
+Proof.
+  induction v as [b|b|a|b|z|h|l IH] using value_ind'; cbn [embed norm]; try reflexivity.
+  f_equal. induction IH as [|x r Hx _ IHr]; cbn [map]; [reflexivity|]. rewrite Hx, IHr. reflexivity.
+Qed.
+
+Lemma fits_new b : N.of_nat (length b) < two64 -> fits (src_new b).
+Proof. exact (fun H => H). Qed.
+
+(** encode then decode (values of the decoder's own result type) *)
+Lemma value_round_trip v enc pre post :
+  wf_value v = true -> encode_value v = Some enc -> N.of_nat (length (pre ++ enc ++ post)) < two64 ->
+  decode_value (mkSrc (pre ++ enc ++ post) (length pre)) = DOk v (mkSrc (pre ++ enc ++ post) (length pre + length enc)).
+Proof.
+  unfold wf_value, encode_value. intros Hwf He Hf.
+  destruct (round_trip_elem (embed v) Hwf) as [b [Eb [_ Hd]]]. rewrite Eb in He. injection He as <-.
+  rewrite embed_norm in Hd.
+  exact (Hd (mkSrc (pre ++ b ++ post) (length pre)) pre post (conj eq_refl eq_refl) Hf).
+Qed.
+
+Lemma wf_encode_defined g : wf_g g = true -> exists b, g_encode_elem g = EOk b /\ wf_bytes b = true /\ (1 <= length b)%nat.
+Proof.
+  intro H. destruct (round_trip_elem g H) as [b [Eb [Hw _]]]. exists b. repeat split; auto.
+  exact (g_encode_elem_nonempty _ _ Eb).
+Qed.
+
+(** Out-of-range big integers are refused, not wrapped. *)
+Lemma big_out_of_range z : in_range minI128 maxI128 z = false -> g_encode_elem (GBig z) = EErrRange.
+Proof.
+  unfold in_range. intro H. cbn [g_encode_elem]. unfold enc_bigint, i128_from_big.
+  replace ((maxI128 <? z)%Z || (z <? minI128)%Z) with true by lia. reflexivity.
+Qed.
+
+(** The wire format is prefix-free and the encoder injective (on well-formed values). *)
+Lemma encode_prefix_free v1 v2 e1 e2 p1 p2 :
+  wf_value v1 = true -> wf_value v2 = true -> encode_value v1 = Some e1 -> encode_value v2 = Some e2 ->
+  e1 ++ p1 = e2 ++ p2 -> N.of_nat (length (e1 ++ p1)) < two64 -> v1 = v2 /\ e1 = e2.
+Proof.
+  intros W1 W2 E1 E2 Heq Hf.
+  pose proof (value_round_trip v1 e1 [] p1 W1 E1 Hf) as D1.
+  assert (Hf2 : N.of_nat (length ([] ++ e2 ++ p2)) < two64) by (cbn [app]; rewrite <- Heq; exact Hf).
+  pose proof (value_round_trip v2 e2 [] p2 W2 E2 Hf2) as D2.
+  cbn [app length] in D1, D2. rewrite Heq in D1. rewrite D1 in D2. injection D2 as Hv Hl.
+  split; [exact Hv|].
+  apply (f_equal (firstn (length e1))) in Heq.
+  rewrite firstn_app, firstn_all, Nat.sub_diag in Heq. cbn [firstn] in Heq. rewrite app_nil_r in Heq.
+  rewrite Heq, Hl, firstn_app, firstn_all, Nat.sub_diag. cbn [firstn]. rewrite app_nil_r. reflexivity.
+Qed.
+
+(** * vmcall_codec.go / notify_codec.go *)
+Lemma has_prefix_app p b : has_prefix p (p ++ b) = true.
+Proof. induction p as [|x p IH]; cbn [has_prefix app]; [reflexivity|]. rewrite N.eqb_refl, IH. reflexivity. Qed.
+
+Lemma has_prefix_inv p : forall b, has_prefix p b = true -> exists r, b = p ++ r.
+Proof.
+  induction p as [|x p IH]; intros b; cbn [has_prefix].
+  - intros _. exists b. reflexivity.
+  - destruct b as [|y b]; [discriminate|]. intro H. apply andb_prop in H. destruct H as [H1 H2].
+    apply N.eqb_eq in H1. subst y. destruct (IH _ H2) as [r ->]. exists r. reflexivity.
+Qed.
+
+Lemma skipn_prefix (p r : bytes) : skipn (length p) (p ++ r) = r.
+Proof. rewrite skipn_app, skipn_all, Nat.sub_diag. reflexivity. Qed.
+
+(** The slice offsets used after the prefix tests are the prefix lengths (both regenerated from the
+    source), and the call prefix is the VERSION byte. *)
+Lemma prefixes_consistent :
+  length CALL_PREFIX = CALL_SKIP /\ length NOTIFY_PREFIX = NOTIFY_SKIP /\ CALL_PREFIX = [VERSION].
+Proof. repeat split. Qed.
+
+Lemma after_prefix_no_panic prefix k input : k = length prefix -> after_prefix prefix k input <> WPanic.
+Proof.
+  intros ->. unfold after_prefix. destruct (has_prefix prefix input) eqn:E; cbn [negb]; [|discriminate].
+  destruct (has_prefix_inv _ _ E) as [r ->]. rewrite app_length.
+  replace (length prefix <=? length prefix + length r)%nat with true by (symmetry; apply Nat.leb_le; lia).
+  discriminate.
+Qed.
+
+Lemma after_prefix_spec prefix k r : k = length prefix ->
+  after_prefix prefix k (prefix ++ r) = WRes (decode_value (src_new r)).
+Proof.
+  intros ->. unfold after_prefix. rewrite has_prefix_app, app_length. cbn [negb].
+  replace (length prefix <=? length prefix + length r)%nat with true by (symmetry; apply Nat.leb_le; lia).
+  rewrite skipn_prefix. reflexivity.
+Qed.
+
+Lemma after_prefix_ok_inv prefix k input v s' : k = length prefix ->
+  after_prefix prefix k input = WRes (DOk v s') -> exists r, input = prefix ++ r /\ decode_value (src_new r) = DOk v s'.
+Proof.
+  intros ->. unfold after_prefix. destruct (has_prefix prefix input) eqn:E; cbn [negb]; [|discriminate].
+  destruct (has_prefix_inv _ _ E) as [r ->]. rewrite app_length.
+  replace (length prefix <=? length prefix + length r)%nat with true by (symmetry; apply Nat.leb_le; lia).
+  rewrite skipn_prefix. intro H. injection H as H. exists r. auto.
+Qed.
+
+Lemma after_prefix_total prefix k input : k = length prefix ->
+  after_prefix prefix k input <> WPanic /\ after_prefix prefix k input <> WRes DFuel.
+Proof.
+  intro Hk. split; [apply after_prefix_no_panic; exact Hk|]. subst k. unfold after_prefix.
+  destruct (negb (has_prefix prefix input)); [discriminate|].
+  destruct (length prefix <=? length input)%nat; [|discriminate].
+  intro H. injection H as H. exact (decode_value_total _ H).
+Qed.
+
+(** * The fuel-free recursion equation of the decoder *)
+Definition decode_list (n : N) (s : source) : dres (list value) := decode_loop decode_value (S (remaining s)) n s.
+
+Lemma decode_loop_ext dv dv' k : dv_adv dv ->
+  forall n s, (forall s3, wk s s3 -> dv s3 = dv' s3) -> oksrc s -> decode_loop dv k n s = decode_loop dv' k n s.
+Proof.
+  intro Hdv. induction k as [|k IH]; intros n s He Hok; [reflexivity|]. cbn [decode_loop].
+  destruct (n =? 0); [reflexivity|]. rewrite <- (He s (wk_refl _ Hok)).
+  destruct (dv s) as [v s1| |] eqn:E; try reflexivity.
+  pose proof (Hdv _ _ _ E) as A. rewrite (IH (n - 1) s1); [reflexivity| |exact (adv_oksrc _ _ A)].
+  intros s3 W. apply He. destruct A as [A1 A2]; destruct W as [W1 W2]. rewrite A1 in *. split; [congruence|lia].
+Qed.
+
+Lemma decode_loop_k_indep dv k k' n s : dv_adv dv -> oksrc s ->
+  (remaining s < k)%nat -> (remaining s < k')%nat -> (forall s3, wk s s3 -> dv s3 <> DFuel) ->
+  decode_loop dv k n s = decode_loop dv k' n s.
+Proof.
+  intros Hdv Hok Hk Hk' Hnf.
+  pose proof (decode_loop_nofuel dv k Hdv n s Hk Hnf Hok) as N1.
+  pose proof (decode_loop_nofuel dv k' Hdv n s Hk' Hnf Hok) as N2.
+  assert (Hrefl : forall s0, le_res (dv s0) (dv s0)) by (intro; right; reflexivity).
+  destruct (decode_loop_mono dv dv k Hrefl (k + k') n s ltac:(lia)) as [E|E]; [contradiction|].
+  destruct (decode_loop_mono dv dv k' Hrefl (k + k') n s ltac:(lia)) as [E'|E']; [contradiction|].
+  congruence.
+Qed.
+
+Lemma decode_body_ext rl rl' s :
+  (forall n s2, adv s s2 -> rl n s2 = rl' n s2) -> decode_body rl s = decode_body rl' s.
+Proof.
+  intro H. unfold decode_body. destruct (next_byte s) as [[ty e] s1] eqn:E. destruct e; [reflexivity|].
+  pose proof (next_byte_adv' _ _ _ E) as A.
+  repeat (match goal with |- context [if ?c then _ else _] => destruct c end; [reflexivity|]).
+  destruct (ty =? ListType); [|reflexivity].
+  unfold dec_list, next_uint32. destruct (next_uint UINT32_SIZE s1) as [[size e] s2] eqn:E1. destruct e; [reflexivity|].
+  rewrite (H size s2); [reflexivity|].
+  exact (adv_wk_trans _ _ _ A (next_uint_adv _ _ _ _ _ E1 (adv_oksrc _ _ A))).
+Qed.
+
+Lemma decode_value_unfold s : decode_value s = decode_body decode_list s.
+Proof.
+  rewrite decode_value_body. apply decode_body_ext. intros n s2 A. unfold decode_list.
+  pose proof (adv_remaining _ _ A) as Hr. pose proof (adv_oksrc _ _ A) as Hok.
+  rewrite (decode_loop_ext (decode_fuel (remaining s)) decode_value (remaining s) (decode_fuel_adv _) n s2).
+  - apply decode_loop_k_indep; try lia; try exact Hok.
+    + intros s0 v s'. apply decode_value_adv.
+    + intros s3 _. apply decode_value_total.
+  - intros s3 W. apply decode_fuel_indep. pose proof (wk_remaining _ _ W). lia.
+  - exact Hok.
+Qed.
+
+(** * Statements used by Props/C25.v *)
+Lemma round_trip_at g pre post :
+  wf_g g = true ->
+  exists b, g_encode_elem g = EOk b /\ wf_bytes b = true /\ (1 <= length b)%nat /\
+    (N.of_nat (length (pre ++ b ++ post)) < two64 ->
+     decode_value (mkSrc (pre ++ b ++ post) (length pre)) =
+     DOk (norm g) (mkSrc (pre ++ b ++ post) (length pre + length b))).
+Proof.
+  intro Hwf. destruct (round_trip_elem g Hwf) as [b [Eb [Hw Hd]]].
+  exists b. repeat split; auto. exact (g_encode_elem_nonempty _ _ Eb).
+  intro Hf. exact (Hd (mkSrc (pre ++ b ++ post) (length pre)) pre post (conj eq_refl eq_refl) Hf).
+Qed.
+
+Lemma encode_value_top g : top_supported g = true -> g_encode_value g = g_encode_elem g.
+Proof. destruct g; try reflexivity; discriminate. Qed.
+
+Lemma round_trip_top g :
+  wf_g g = true -> top_supported g = true ->
+  exists b, g_encode_value g = EOk b /\ wf_bytes b = true /\
+    (N.of_nat (length b) < two64 -> decode_value (src_new b) = DOk (norm g) (mkSrc b (length b))).
+Proof.
+  intros Hwf Ht. destruct (round_trip_at g [] [] Hwf) as [b [Eb [Hw [_ Hd]]]].
+  exists b. rewrite (encode_value_top _ Ht). repeat split; auto.
+  cbn [app length] in Hd. rewrite app_nil_r in Hd. exact Hd.
+Qed.
+
+Lemma encode_value_default g :
+  top_supported g = false -> g_encode_value g = EOk [] /\ decode_value (src_new []) = DErr ErrFormat.
+Proof. destruct g; try discriminate; intros _; split; reflexivity. Qed.
+
+Lemma decode_canonical b v s' :
+  wf_bytes b = true -> decode_value (src_new b) = DOk v s' ->
+  exists enc post, b = enc ++ post /\ encode_value v = Some enc /\ wf_value v = true /\ s' = mkSrc b (length enc).
+Proof.
+  intros Hw H. destruct (can_value _ _ _ _ _ H (at_pos_new b) Hw) as [enc [post [Hb [He [Hwf Hs]]]]].
+  exists enc, post. unfold encode_value, wf_value. rewrite He. repeat split; auto.
+Qed.
+
+Lemma decode_in_bounds s v s' :
+  decode_value s = DOk v s' -> buf s' = buf s /\ (off s < off s' <= length (buf s))%nat.
+Proof. apply decode_value_adv. Qed.
+
+Lemma call_param_round_trip g :
+  wf_g g = true -> top_supported g = true ->
+  exists b, g_encode_value g = EOk b /\
+    (N.of_nat (length b) < two64 ->
+     deserialize_call_param (VERSION :: b) = WRes (DOk (norm g) (mkSrc b (length b))) /\
+     parse_notify (NOTIFY_PREFIX ++ b) = WRes (DOk (norm g) (mkSrc b (length b))) /\
+     deserialize_notify (NOTIFY_PREFIX ++ b) = NParsed (norm g)).
+Proof.
+  intros Hwf Ht. destruct (round_trip_top g Hwf Ht) as [b [Eb [_ Hd]]]. exists b. split; [exact Eb|].
+  intro Hf. specialize (Hd Hf).
+  assert (H1 : deserialize_call_param (VERSION :: b) = WRes (DOk (norm g) (mkSrc b (length b)))).
+  { unfold deserialize_call_param. change (VERSION :: b) with (CALL_PREFIX ++ b).
+    rewrite after_prefix_spec by reflexivity. rewrite Hd. reflexivity. }
+  assert (H2 : parse_notify (NOTIFY_PREFIX ++ b) = WRes (DOk (norm g) (mkSrc b (length b)))).
+  { unfold parse_notify. rewrite after_prefix_spec by reflexivity. rewrite Hd. reflexivity. }
+  repeat split; auto. unfold deserialize_notify. rewrite H2. reflexivity.
+Qed.
+
+Lemma wrappers_total input :
+  deserialize_call_param input <> WPanic /\ deserialize_call_param input <> WRes DFuel /\
+  parse_notify input <> WPanic /\ parse_notify input <> WRes DFuel /\ deserialize_notify input <> NPanic.
+Proof.
+  destruct (after_prefix_total CALL_PREFIX CALL_SKIP input eq_refl) as [H1 H2].
+  destruct (after_prefix_total NOTIFY_PREFIX NOTIFY_SKIP input eq_refl) as [H3 H4].
+  repeat split; auto. unfold deserialize_notify. fold (parse_notify input).
+  destruct (parse_notify input) as [[v s| |]|] eqn:E; try discriminate. contradiction.
+Qed.
+
+Lemma wrappers_accept_only_prefixed input v s' :
+  (deserialize_call_param input = WRes (DOk v s') -> exists r, input = VERSION :: r /\ decode_value (src_new r) = DOk v s') /\
+  (parse_notify input = WRes (DOk v s') -> exists r, input = NOTIFY_PREFIX ++ r /\ decode_value (src_new r) = DOk v s').
+Proof.
+  split; intro H.
+  - exact (after_prefix_ok_inv CALL_PREFIX CALL_SKIP input v s' eq_refl H).
+  - exact (after_prefix_ok_inv NOTIFY_PREFIX NOTIFY_SKIP input v s' eq_refl H).
+Qed.
+
+Lemma notify_fallback input :
+  (exists v, deserialize_notify input = NParsed v /\ exists s', parse_notify input = WRes (DOk v s')) \/
+  (deserialize_notify input = NRaw input /\ forall v s', parse_notify input <> WRes (DOk v s')).
+Proof.
+  pose proof (wrappers_total input) as [_ [_ [Hp _]]].
+  unfold deserialize_notify. destruct (parse_notify input) as [[v s| |]|] eqn:E.
+  - left. exists v. split; [reflexivity|]. exists s. reflexivity.
+  - right. split; [reflexivity|]. intros; discriminate.
+  - right. split; [reflexivity|]. intros; discriminate.
+  - contradiction.
+Qed.
